@@ -885,7 +885,7 @@ func fieldDesc(t types.Type, idx int) string {
 		t = p.Elem()
 	}
 	if s, ok := t.Underlying().(*types.Struct); ok && idx < s.NumFields() {
-		_, n := recvTypeName(t)
+		_, n := ownerTypeName(t)
 		return n + "." + canonFieldName(t, s, idx)
 	}
 	return fmt.Sprintf("field#%d", idx)
@@ -958,7 +958,7 @@ func (p *Prog) FieldAccesses(pkg, typ, field string) []FieldAccess {
 			if pt, ok := xt.Underlying().(*types.Pointer); ok {
 				xt = pt.Elem()
 			}
-			pk, tn := recvTypeName(xt)
+			pk, tn := ownerTypeName(xt)
 			if tn != typ || rel(pk) != pkg {
 				return
 			}
@@ -2215,20 +2215,10 @@ func (r *Report) lockFor(pkg, typ, dataField, lockField string) string {
 	if !ok {
 		return lockField
 	}
-	st, ok := m.Type().Underlying().(*types.Struct)
-	if !ok {
+	if _, ok := m.Type().Underlying().(*types.Struct); !ok {
 		return lockField
 	}
-	isMutex := func(t types.Type) bool {
-		s := t.String()
-		return s == "sync.Mutex" || s == "sync.RWMutex" || s == "*sync.Mutex" || s == "*sync.RWMutex"
-	}
-	mutexes := map[string]bool{}
-	for i := 0; i < st.NumFields(); i++ {
-		if isMutex(st.Field(i).Type()) {
-			mutexes[canonFieldName(m.Type(), st, i)] = true
-		}
-	}
+	mutexes := r.structMutexes(pkg, typ)
 	if mutexes[lockField] || len(mutexes) == 0 {
 		return lockField
 	}
@@ -2274,12 +2264,28 @@ func (r *Report) structMutexes(pkg, typ string) map[string]bool {
 	if !ok {
 		return out
 	}
-	for i := 0; i < st.NumFields(); i++ {
-		switch strings.TrimPrefix(st.Field(i).Type().String(), "*") {
-		case "sync.Mutex", "sync.RWMutex":
-			out[canonFieldName(m.Type(), st, i)] = true
+	var scan func(owner types.Type, st *types.Struct, depth int)
+	scan = func(owner types.Type, st *types.Struct, depth int) {
+		for i := 0; i < st.NumFields(); i++ {
+			switch strings.TrimPrefix(st.Field(i).Type().String(), "*") {
+			case "sync.Mutex", "sync.RWMutex":
+				out[canonFieldName(owner, st, i)] = true
+			}
+			// a helper struct embedded since the reference keeps its mutexes on behalf of the outer object
+			if st.Field(i).Embedded() && depth < 2 {
+				if _, n := ownerTypeName(st.Field(i).Type()); n == typ {
+					ft := st.Field(i).Type()
+					if p, ok := ft.(*types.Pointer); ok {
+						ft = p.Elem()
+					}
+					if ist, ok := ft.Underlying().(*types.Struct); ok {
+						scan(ft, ist, depth+1)
+					}
+				}
+			}
 		}
 	}
+	scan(m.Type(), st, 0)
 	return out
 }
 
